@@ -333,6 +333,8 @@ pub fn run_one<S: Scenario>(s: &S, prefix: &[usize], want_labels: bool) -> Exec<
 		c.parked.clear();
 		c.panics.clear();
 	});
+	// every caller (explorations, history BFS, enumerations) pauses here while too much memory awaits the timer thread
+	crate::mem::backpressure();
 	Exec { decisions, labels, trace, status, panics, obs: verdict }
 }
 
@@ -492,7 +494,6 @@ pub fn explore<S: Scenario>(s: &S, cfg: &ExploreCfg, rep: &Reporter) -> ExploreS
 						continue;
 					}
 					let ex = run_one(s, &prefix, false);
-					crate::mem::backpressure();
 					let n = execs.fetch_add(1, Ordering::Relaxed) + 1;
 					if n >= cfg.max_execs || start.elapsed() > cfg.time_cap {
 						capped.store(true, Ordering::Relaxed);
